@@ -26,8 +26,115 @@ var journalSpecs = []string{
 
 var extensionCtorSpecs = []string{"nycttrips:Extension", "nyctalerts:Extension", "extensions:NoExtension"}
 
+// anchorShape: how an unexported anchor is recognised when no function of that name exists any more (it was renamed):
+// by what it converts (signature class) and, where the class is shared, by a CSV column it reads. A function found
+// this way must be the only candidate in its package.
+type anchorShape struct {
+	class string
+	reads string
+}
+
+var anchorShapes = map[string]anchorShape{
+	"gtfs:mergeTrip":                                  {"(*gtfs.Trip,gtfs.Trip)→()", ""},
+	"gtfs:mergeVehicle":                               {"(*gtfs.Vehicle,gtfs.Vehicle)→()", ""},
+	"gtfs:parseTripUpdate":                            {"(*proto.TripUpdate)→(*gtfs.Trip,*gtfs.Vehicle,bool)", ""},
+	"gtfs:parseVehicle":                               {"(*proto.VehiclePosition)→(*gtfs.Trip,*gtfs.Vehicle)", ""},
+	"gtfs:parseAlert":                                 {"(string,*proto.Alert)→(*gtfs.Alert,[]gtfs.Trip)", ""},
+	"gtfs:parseScheduledStopTimes":                    {"(*csv.File,[]gtfs.Stop,[]gtfs.ScheduledTrip)→()", "stop_sequence"},
+	"gtfs:parseGtfsTimeToDuration":                    {"(string)→(time.Duration,bool)", ""},
+	"gtfs:parseStops":                                 {"(*csv.File,bool)→([]gtfs.Stop)", "stop_id"},
+	"gtfs:parseStartTime":                             {"(*string)→(bool,time.Duration)", ""},
+	"gtfs:parseStartDate":                             {"(*string)→(bool,time.Time)", ""},
+	"gtfs:parseShapes":                                {"(*csv.File)→([]gtfs.Shape)", "shape_pt_lat"},
+	"gtfs:parseDirectionID_GTFSStatic":                {"(string)→(gtfs.DirectionID)", ""},
+	"gtfs:parseDirectionID_GTFSRealtime":              {"(*uint32)→(gtfs.DirectionID)", ""},
+	"gtfs:parseCalendar":                              {"(*csv.File,map[string]gtfs.Service)→()", "monday"},
+	"gtfs:parseCalendarDates":                         {"(*csv.File,map[string]gtfs.Service)→()", "exception_type"},
+	"gtfs:parseTime":                                  {"(string)→(time.Time,error)", ""},
+	"gtfs:tripIDUniquelyIdentifiesTrip":               {"(*gtfs.TripID)→(bool)", ""},
+	"gtfs:alertInformedEntityInformsAtLeastOneEntity": {"(gtfs.AlertInformedEntity)→(bool)", ""},
+	"gtfs:(*ParseRealtimeOptions).timezoneOrUTC":      {"()→(*time.Location)", ""},
+	"gtfs:convertOptionalTimestamp":                   {"(*uint64)→(*time.Time)", ""},
+	"gtfs:parseOptionalTripDescriptor":                {"(*proto.TripDescriptor)→(*gtfs.TripID)", ""},
+	"gtfs:convertVehiclePosition":                     {"(*proto.VehiclePosition)→(*gtfs.Position)", ""},
+	"gtfs:parseVehicleDescriptor":                     {"(*proto.VehicleDescriptor)→(*gtfs.VehicleID)", ""},
+	"journal:createPartition":                         {"([]journal.StopTime,[]gtfs.StopTimeUpdate)→(journal.partition)", ""},
+	"journal:buildTripUID":                            {"(time.Time,string)→(string)", ""},
+	"journal:(*Trip).update":                          {"(*journal.Trip,*gtfs.Trip,time.Time)→()", ""},
+	"journal:(*Trip).markPast":                        {"(*journal.Trip,time.Time)→()", ""},
+	"journal:(*StopTime).update":                      {"(*journal.StopTime,*gtfs.StopTimeUpdate,time.Time)→()", ""},
+	"journal:(*StopTime).markPast":                    {"(*journal.StopTime,time.Time)→()", ""},
+	"nycttrips:isStaleUnassignedTrip":                 {"(bool,[]*proto.TripUpdate_StopTimeUpdate,uint64)→(bool)", ""},
+	"nycttrips:fixMTrainPlatformsInBushwick":          {"(*proto.TripUpdate)→()", ""},
+	"nycttrips:(extension).updateTripOrVehicle":       {"(nycttrips.extension,nycttrips.tripOrVehicle)→(bool)", ""},
+	"nyctalerts:getPriorityFromInformedEntity":        {"(*proto.EntitySelector)→(proto.MercuryEntitySelector_Priority,bool)", ""},
+	"nyctalerts:buildMetadata":                        {"(*proto.Alert)→(string,bool)", ""},
+	"nyctalerts:(extension).updateElevatorAlert":      {"(nyctalerts.extension,*string,*proto.Alert)→(bool)", ""},
+}
+
+// resolveByShape: the unique unexported, named function of the anchor's package with the anchor's shape.
+func (c *Ctx) resolveByShape(spec string) *ssa.Function {
+	sh, ok := anchorShapes[spec]
+	if !ok {
+		return nil
+	}
+	path := pkgPathOf(spec[:strings.Index(spec, ":")])
+	taken := map[*ssa.Function]bool{}
+	for other := range anchorShapes {
+		if other != spec {
+			if f := c.P.Func(other); f != nil {
+				taken[f] = true
+			}
+		}
+	}
+	var cands []*ssa.Function
+	for _, fn := range c.P.ModFns {
+		if fnPkgPath(fn) != path || fn.Parent() != nil || fn.Synthetic != "" || taken[fn] || sigClass(fn) != sh.class {
+			continue
+		}
+		if obj := fn.Object(); obj == nil || obj.Exported() {
+			continue
+		}
+		if sh.reads != "" && !readsColumn(fn, sh.reads) {
+			continue
+		}
+		cands = append(cands, fn)
+	}
+	if len(cands) == 1 {
+		return cands[0]
+	}
+	return nil
+}
+
+// readsColumn: fn asks its csv.File for the named column.
+func readsColumn(fn *ssa.Function, col string) bool {
+	for _, b := range fn.Blocks {
+		for _, in := range b.Instrs {
+			if call, ok := in.(*ssa.Call); ok {
+				n := calleeName(call)
+				if strings.HasSuffix(n, "csv.File).RequiredColumn") || strings.HasSuffix(n, "csv.File).OptionalColumn") {
+					if s, ok := constString(call.Call.Args[len(call.Call.Args)-1]); ok && s == col {
+						return true
+					}
+				}
+			}
+		}
+	}
+	return false
+}
+
 func (c *Ctx) anchor(spec string) *ssa.Function {
+	if f, ok := c.anchorMemo[spec]; ok {
+		return f
+	}
 	f := c.P.Func(spec)
+	if f == nil {
+		f = c.resolveByShape(spec)
+	}
+	if c.anchorMemo == nil {
+		c.anchorMemo = map[string]*ssa.Function{}
+	}
+	c.anchorMemo[spec] = f
 	if f == nil {
 		c.Undecided("ANCHOR", spec, "resolve", "-", "UNRESOLVED ANCHOR "+spec+": the function this rule is about no longer exists under that name; the property can no longer be vouched for")
 	}
